@@ -246,6 +246,21 @@ def handle (toks : List String) : String :=
         showRun (Pff.Run.run (opsOfTables ht ct dt) P fs stream)
       | _, _, _, _ => "bad-op"
     | _, _, _, _, _, _, _, _, _, _, _ => "bad-op"
+  | "eccgen" :: tool :: hl :: mbs :: hdr :: kmain :: kintra :: r1 :: r2 :: r3 :: pre :: rest =>
+    -- rest = FS ; HT ; ET  → the bytes of the generated ecc file
+    match hl.toNat?, mbs.toNat?, hdr.toNat?, kmain.toNat?, kintra.toNat?, parseFloatBits r1, parseFloatBits r2, parseFloatBits r3,
+          (if pre == "-" then some [] else parseHex pre), splitAll ";" rest with
+    | some hl, some mbs, some hdr, some kmain, some kintra, some r1, some r2, some r3, some pre, [fs, ht, et] =>
+      match parseFS fs, parseHTab ht, parseETab et with
+      | some fs, some ht, some et =>
+        let P : Pff.Run.Params :=
+          { tool := if tool == "h" then .header else .whole, fast := true, thr := 0, hashLen := hl, mbs := mbs,
+            headerSize := hdr, kMain := kmain, kOfFor := fun size => Pff.Layout.kOfFloat mbs hdr size r1 r2 r3,
+            kIntra := kintra, ignoreSize := false }
+        let O : Pff.Ecc.Ops := { opsWithEnc et [] [] with H := (opsOfTables ht [] []).H }
+        toHex (Pff.Run.genStream O P pre fs)
+      | _, _, _ => "bad-op"
+    | _, _, _, _, _, _, _, _, _, _ => "bad-op"
   | ["efields", e] =>
     match parseHex e with
     | some e =>
